@@ -117,6 +117,14 @@ func one(r *rep.Report, rng *prng.R, orig *p9p.Fcall, msize int, live bool) {
 		m.Data = callerBuf
 		fc.Message = m
 	}
+	// one message in four (other than the two the channel rewrites by value) is passed in pointer form
+	switch fc.Message.(type) {
+	case p9p.MessageTread, p9p.MessageTwrite:
+	default:
+		if rng.Chance(1, 4) {
+			fc.Message = wiregen.Pointer(fc.Message)
+		}
+	}
 	snapshot := append([]byte{}, callerBuf[:cap(callerBuf)]...)
 	c := sx.L(sx.Sym("write"), sx.I(int64(msize)), sx.Bool(live), wiregen.FcallSexp(fc))
 
